@@ -57,6 +57,9 @@ pub struct EncSpec {
     pub chroms: Vec<EncChrom>,
     /// items per chromosome-tree node (>= number of chromosomes gives a single leaf)
     pub chrom_block: usize,
+    /// chromosome-tree nodes in level order (root first, as the UCSC writer does) or depth first
+    #[serde(default)]
+    pub chrom_level_order: bool,
     pub fanout: usize,
     pub placement: Placement,
     /// zoom reductions to write
@@ -291,7 +294,7 @@ fn write_rtree(w: &mut W, root: &Node, fanout: usize, item_count: u64, ips: u32,
     header_off
 }
 
-fn write_chrom_tree(w: &mut W, chroms: &[(String, u32, u32)], block: usize) -> u64 {
+fn write_chrom_tree(w: &mut W, chroms: &[(String, u32, u32)], block: usize, level_order: bool) -> u64 {
     // chroms sorted by key; (name, id, size)
     let key_size = chroms.iter().map(|c| c.0.len()).max().unwrap_or(1);
     let off = w.pos();
@@ -301,74 +304,84 @@ fn write_chrom_tree(w: &mut W, chroms: &[(String, u32, u32)], block: usize) -> u
     w.u32(8);
     w.u64(chroms.len() as u64);
     w.u64(0);
-    // build levels
-    #[derive(Clone)]
-    enum CN {
-        Leaf(Vec<usize>),
-        Inner(Vec<CN>),
+    // nodes: (is_leaf, items); a leaf item is a chromosome index, an inner item a node id
+    let mut nodes: Vec<(bool, Vec<usize>)> = vec![];
+    let mut level: Vec<usize> = vec![];
+    let idxs: Vec<usize> = (0..chroms.len()).collect();
+    for c in idxs.chunks(block.max(1)) {
+        nodes.push((true, c.to_vec()));
+        level.push(nodes.len() - 1);
     }
-    let mut level: Vec<CN> = (0..chroms.len()).collect::<Vec<_>>().chunks(block).map(|c| CN::Leaf(c.to_vec())).collect();
     if level.is_empty() {
-        level.push(CN::Leaf(vec![]));
+        nodes.push((true, vec![]));
+        level.push(0);
     }
     while level.len() > 1 {
-        level = level.chunks(block).map(|c| CN::Inner(c.to_vec())).collect();
+        let mut next = vec![];
+        for c in level.chunks(block.max(2)) {
+            nodes.push((false, c.to_vec()));
+            next.push(nodes.len() - 1);
+        }
+        level = next;
     }
-    let root = level.pop().unwrap();
-    fn first_key(n: &CN) -> usize {
-        match n {
-            CN::Leaf(v) => v[0],
-            CN::Inner(v) => first_key(&v[0]),
+    let root = level[0];
+    // depth of every node and first key
+    fn first_key(nodes: &[(bool, Vec<usize>)], n: usize) -> usize {
+        if nodes[n].0 {
+            nodes[n].1[0]
+        } else {
+            first_key(nodes, nodes[n].1[0])
         }
     }
-    fn size_of(n: &CN, ks: usize) -> u64 {
-        match n {
-            CN::Leaf(v) => 4 + (ks as u64 + 8) * v.len() as u64,
-            CN::Inner(v) => 4 + (ks as u64 + 8) * v.len() as u64,
+    let mut order: Vec<usize> = vec![];
+    if level_order {
+        let mut cur = vec![root];
+        while !cur.is_empty() {
+            let mut next = vec![];
+            for n in &cur {
+                order.push(*n);
+                if !nodes[*n].0 {
+                    next.extend(nodes[*n].1.iter().cloned());
+                }
+            }
+            cur = next;
         }
+    } else {
+        fn dfs(nodes: &[(bool, Vec<usize>)], n: usize, order: &mut Vec<usize>) {
+            order.push(n);
+            if !nodes[n].0 {
+                for c in &nodes[n].1 {
+                    dfs(nodes, *c, order);
+                }
+            }
+        }
+        dfs(&nodes, root, &mut order);
     }
-    // depth-first layout: node, then its children in order
-    fn emit(w: &mut W, n: &CN, chroms: &[(String, u32, u32)], ks: usize) {
-        let pad_key = |w: &mut W, name: &str| {
+    let size_of = |n: usize| 4 + (key_size as u64 + 8) * nodes[n].1.len() as u64;
+    let mut offs = vec![0u64; nodes.len()];
+    let mut p = w.pos();
+    for n in &order {
+        offs[*n] = p;
+        p += size_of(*n);
+    }
+    for n in &order {
+        let (is_leaf, items) = &nodes[*n];
+        w.u8(if *is_leaf { 1 } else { 0 });
+        w.u8(0);
+        w.u16(items.len() as u16);
+        for it in items {
+            let name = if *is_leaf { &chroms[*it].0 } else { &chroms[first_key(&nodes, *it)].0 };
             let mut k = name.as_bytes().to_vec();
-            k.resize(ks, 0);
+            k.resize(key_size, 0);
             w.bytes(&k);
-        };
-        match n {
-            CN::Leaf(v) => {
-                w.u8(1);
-                w.u8(0);
-                w.u16(v.len() as u16);
-                for i in v {
-                    pad_key(w, &chroms[*i].0);
-                    w.u32(chroms[*i].1);
-                    w.u32(chroms[*i].2);
-                }
-            }
-            CN::Inner(v) => {
-                w.u8(0);
-                w.u8(0);
-                w.u16(v.len() as u16);
-                // children follow this node one after another
-                let mut child_off = w.pos() + (ks as u64 + 8) * v.len() as u64;
-                fn total(n: &CN, ks: usize) -> u64 {
-                    match n {
-                        CN::Leaf(_) => size_of(n, ks),
-                        CN::Inner(v) => size_of(n, ks) + v.iter().map(|c| total(c, ks)).sum::<u64>(),
-                    }
-                }
-                for c in v {
-                    pad_key(w, &chroms[first_key(c)].0);
-                    w.u64(child_off);
-                    child_off += total(c, ks);
-                }
-                for c in v {
-                    emit(w, c, chroms, ks);
-                }
+            if *is_leaf {
+                w.u32(chroms[*it].1);
+                w.u32(chroms[*it].2);
+            } else {
+                w.u64(offs[*it]);
             }
         }
     }
-    emit(w, &root, chroms, key_size);
     off
 }
 
@@ -433,7 +446,7 @@ pub fn encode(spec: &EncSpec) -> Encoded {
     } else {
         0
     };
-    let chrom_tree_off = write_chrom_tree(&mut w, &chroms, spec.chrom_block);
+    let chrom_tree_off = write_chrom_tree(&mut w, &chroms, spec.chrom_block, spec.chrom_level_order);
     let data_off = w.pos();
     w.u64(0);
     // data blocks
